@@ -233,7 +233,13 @@ func (v *val) selSexp() []sexp.Node {
 	for _, fv := range v.fields {
 		tag := sexp.Sym("none")
 		if fv.tag >= 0 {
-			tag = sexp.Int(fv.tag)
+			// a promise that is already fulfilled when its resolver returns carries a tag >= 2^32
+			// (ExecAsync.pre_base); the schedule is indexed by the label below that
+			if fv.pre {
+				tag = sexp.Int64(int64(fv.tag) + 1<<32)
+			} else {
+				tag = sexp.Int(fv.tag)
+			}
 		}
 		res := sexp.Sym("err")
 		if !fv.err {
